@@ -1,6 +1,7 @@
 package main
 
 import (
+	"go/token"
 	"go/types"
 	"strings"
 
@@ -113,9 +114,33 @@ func checkC14(c *Check) {
 		}
 	}
 	ai.onBranch = func(st *aiState, ifi *ssa.If, idx int) {
-		// error from the hostname reservation
-		if strings.Contains(Sym(ifi.Cond), "select") || strings.Contains(Sym(ifi.Cond), "Select") {
+		// error from the hostname reservation: the value received from the reservation channel compared with nil
+		bo, ok := ifi.Cond.(*ssa.BinOp)
+		if !ok || (bo.Op != token.NEQ && bo.Op != token.EQL) || !isNilConst(bo.Y) {
 			return
+		}
+		ex, ok := bo.X.(*ssa.Extract)
+		if !ok {
+			return
+		}
+		sel, ok := ex.Tuple.(*ssa.Select)
+		if !ok || ex.Index < 2 {
+			return
+		}
+		r := ex.Index - 2
+		for _, s := range sel.States {
+			if s.Dir != types.RecvOnly {
+				continue
+			}
+			if r == 0 {
+				if strings.Contains(Sym(s.Chan), "ReserveHostnames(") {
+					if (bo.Op == token.NEQ) == (idx == 0) {
+						st.flag["hnfail"] = true
+					}
+				}
+				return
+			}
+			r--
 		}
 	}
 	ai.onRecv = func(st *aiState, tok string, in ssa.Instruction, bare bool) {
@@ -134,7 +159,7 @@ func checkC14(c *Check) {
 		exits++
 		if st.flag["tdreq"] && !st.flag["tdstarted"] && !st.flag["shutdown"] {
 			// leaving without teardown is acceptable only when nothing was ever deployed because the hostnames failed
-			if !(st.flag["hnrecv"] && st.cnt["deploys"] == 0 && st.tok["deploy"] == "") {
+			if !(st.flag["hnfail"] && st.cnt["deploys"] == 0 && st.tok["deploy"] == "") {
 				add("R3|honoured", "the manager can terminate after a teardown request without ever starting the teardown (state "+st.mem[stateCell]+")", in)
 			}
 		}
@@ -505,7 +530,36 @@ func (c *Check) hostnameNormalisation() {
 		n++
 		c.Ob("R7", name+" addresses the in-use map by the received names unchanged", fn.Pos(), ok && seen > 0, detail)
 	}
-	if n != 5 {
+	// all-or-nothing: once a name of the request has been recorded, the request cannot be refused any more (a manager
+	// whose reservation is refused never releases anything)
+	{
+		fn := l.Func("provider/cluster", "hostnameService", "doRequest")
+		var updates []ssa.Instruction
+		var refusals []ssa.Instruction
+		eachInstr(fn, func(i ssa.Instruction) {
+			switch x := i.(type) {
+			case *ssa.MapUpdate:
+				updates = append(updates, x)
+			case *ssa.Send:
+				if !isNilConst(x.X) {
+					refusals = append(refusals, x)
+				}
+			}
+		})
+		ok := len(updates) > 0 && len(refusals) > 0
+		why := "doRequest has no recording store or no refusing reply"
+		for _, u := range updates {
+			for _, r := range refusals {
+				if reachableFrom(u, r) {
+					ok = false
+					why = "a refusal at " + l.Pos(r.Pos()) + " can follow the recording of an earlier name of the same request: those names stay taken although the request failed and nobody will release them"
+				}
+			}
+		}
+		n++
+		c.Ob("R7", "doRequest records names only after the whole request was admitted", fn.Pos(), ok, why)
+	}
+	if n != 6 {
 		c.Fail("C14-R7 lost instances")
 	}
 }
